@@ -2,6 +2,8 @@
 PROPS = {
     "C05": ["c05_outline", "c06_bracketing"],
     "C06": ["c06_bracketing"],
+    "C08": ["c08_guards", "c06_bracketing"],
+    "C09": ["c09_auxes", "c11_clocks"],
     "C11": ["c11_clocks", "c06_bracketing"],
     "C21": ["c21_needs"],
     "C38": ["c38_exchange"],
